@@ -77,6 +77,8 @@ def run(chk):
         for i, o in zip(idx, impl):
             if o != model[i]: corr.append((i, fl, o))
             steps, end = uris.parse_hist(o)
+            if "!src" in o:
+                chk.violation("a text handed to the parser was written to by a later operation", {"request": hreq[i], "build": fl, "impl": o}); continue
             if steps is None or end["live"] != 0 or end["bad"] != 0:
                 chk.violation("crash or memory not fully returned after the history: " + o[-160:], {"request": hreq[i], "build": fl, "impl": o}); continue
             toks = hreq[i].split()[1:]
